@@ -59,6 +59,16 @@ def check_model(model, x, y, rec, tags, what, check_T=True):
     lhs, rhs = float(Ax @ y), float(x @ Aty)
     require(abs(lhs - rhs) <= 1e-8 * (1 + np.linalg.norm(Ax) * np.linalg.norm(y) + np.linalg.norm(x) * np.linalg.norm(Aty)),
             f"{what}: <Ax,y> != <x,A*y>", lhs=lhs, rhs=rhs)
+    # the same signal in other units: a linear map commutes with scaling by a power of two exactly (no rounding), whatever the
+    # magnitude - 7e-15 (an image in tiny units) or 1e9. Only asked where forward is linear at unit scale (identity-like geometries).
+    if maxdiff(np.asarray(model.forward(2.0 * x), dtype=float).ravel(), 2.0 * Ax) <= 1e-12 * (1 + np.max(np.abs(Ax))):
+        for fn, v, out, name in ((model.forward, x, Ax, "forward"), (model.adjoint, y, Aty, "adjoint")):
+            for sc_ in (2.0 ** -47, 2.0 ** 30):
+                got_s = np.asarray(fn(sc_ * v), dtype=float).ravel()
+                # (1e-290: products that underflow at one magnitude and not at the other)
+                require(maxdiff(got_s, sc_ * out) <= 1e-12 * sc_ * (np.max(np.abs(out)) if out.size else 0.0) + 1e-290,
+                        f"{what}: {name}(s*v) != s*{name}(v) for s = {sc_:.3g} (the operator is not homogeneous at this magnitude)",
+                        scaled=got_s, expected=sc_ * out)
     xa = cuqi.array.CUQIarray(x, is_par=True, geometry=model.domain_geometry)
     ya = cuqi.array.CUQIarray(y, is_par=True, geometry=model.range_geometry)
     require(close(np.asarray(model.forward(xa)).ravel(), Ax, 1e-10), f"{what}: forward differs on CUQIarray input")
